@@ -372,37 +372,44 @@ func directedScenarios() []directed {
 		tagged(g, "failed-instantiation:elem-oob:data-segment-after-trap", func() { g.call(e, "ld8", 32); g.setAlt("written", 'D') })
 		tagged(g, "failed-instantiation:elem-oob:start-function-after-trap", func() { g.call(e, "gget0"); g.setAlt("ran", 99) })
 	}})
-	out = append(out, directed{"fail-start-trap-after-writes", func(g *gen) {
-		e := g.instantiate(exporterSpec("e", 0)).Inst
-		spec := &ModSpec{Name: "b", ID: 1,
-			Imports: []ImportSpec{impMem("e", wenc.Limits{Min: 1}), impTab("e", wenc.Limits{Min: 1}), impG("e", 0, gt(wenc.I32, true))},
-			Elems:   []ElemSpec{{Table: 0, Off: SegOff{Global: -1, Const: 2}, Items: []ElemItem{{Kind: "func", Ref: 1}}}},
-			Datas:   []DataSpec{{Off: SegOff{Global: -1, Const: 16}, Bytes: []byte("S")}},
-			Start: &StartSpec{Trap: true, Acts: []StartAct{{Kind: "st8", A: 20, B: 7}, {Kind: "gset", A: 0, V: 33},
-				{Kind: "tset", A: 0, B: 3, C: 0}, {Kind: "mgrow", A: 1}}}}
-		g.instantiate(spec)
-		g.push(Step{Kind: "gc", Tag: "gc"})
-		tagged(g, "failed-instantiation:start-trap:data-segment", func() { g.call(e, "ld8", 16); g.setAlt("not-written", 0) })
-		tagged(g, "failed-instantiation:start-trap:store-by-start-function", func() { g.call(e, "ld8", 20); g.setAlt("not-written", 0) })
-		tagged(g, "failed-instantiation:start-trap:global.set-by-start-function", func() { g.call(e, "gget0"); g.setAlt("not-written", 1) })
-		tagged(g, "failed-instantiation:start-trap:memory.grow-by-start-function", func() { g.call(e, "msize"); g.setAlt("not-grown", 1) })
-		// functions of the failed instance stay callable through the shared table
-		tagged(g, "failed-instantiation:start-trap:function-of-failed-instance-in-shared-table", func() {
-			g.call(e, "tcall0", 2, 1)
-			g.call(e, "tcall0", 3, 1)
-			g.call(e, "gget0")
-		})
-		g.noteHot(16)
-		g.noteHot(20)
-		g.sweep()
-		// a later importer links against the survivors as if nothing had happened
-		i := g.instantiate(&ModSpec{Name: "i", ID: 2, Imports: []ImportSpec{impMem("e", wenc.Limits{Min: 2}), impTab("e", wenc.Limits{Min: 1}), impG("e", 0, gt(wenc.I32, true))}}).Inst
-		if i != nil {
-			g.call(i, "tcall0", 2, 5)
-			g.call(i, "ld8", 20)
-		}
-		g.sweep()
-	}})
+	for _, hide := range []bool{false, true} {
+		hide := hide
+		out = append(out, directed{map[bool]string{false: "fail-start-trap-after-writes", true: "fail-start-trap-after-writes-table-not-reexported"}[hide], func(g *gen) {
+			e := g.instantiate(exporterSpec("e", 0)).Inst
+			spec := &ModSpec{Name: "b", ID: 1, HideImportedTables: hide,
+				Imports: []ImportSpec{impMem("e", wenc.Limits{Min: 1}), impTab("e", wenc.Limits{Min: 1}), impG("e", 0, gt(wenc.I32, true))},
+				Elems:   []ElemSpec{{Table: 0, Off: SegOff{Global: -1, Const: 2}, Items: []ElemItem{{Kind: "func", Ref: 1}}}},
+				Datas:   []DataSpec{{Off: SegOff{Global: -1, Const: 16}, Bytes: []byte("S")}},
+				Start: &StartSpec{Trap: true, Acts: []StartAct{{Kind: "st8", A: 20, B: 7}, {Kind: "gset", A: 0, V: 33},
+					{Kind: "tset", A: 0, B: 3, C: 0}, {Kind: "mgrow", A: 1}}}}
+			g.instantiate(spec)
+			g.push(Step{Kind: "gc", Tag: "gc"})
+			tagged(g, "failed-instantiation:start-trap:data-segment", func() { g.call(e, "ld8", 16); g.setAlt("not-written", 0) })
+			tagged(g, "failed-instantiation:start-trap:store-by-start-function", func() { g.call(e, "ld8", 20); g.setAlt("not-written", 0) })
+			tagged(g, "failed-instantiation:start-trap:global.set-by-start-function", func() { g.call(e, "gget0"); g.setAlt("not-written", 1) })
+			tagged(g, "failed-instantiation:start-trap:memory.grow-by-start-function", func() { g.call(e, "msize"); g.setAlt("not-grown", 1) })
+			// functions of the failed instance stay callable through the shared table
+			tagged(g, "failed-instantiation:start-trap:function-of-failed-instance-in-shared-table", func() {
+				g.call(e, "tcall0", 2, 1)
+				g.call(e, "tcall0", 3, 1)
+				g.call(e, "gget0")
+			})
+			g.noteHot(16)
+			g.noteHot(20)
+			g.sweep()
+			// a later importer links against the survivors as if nothing had happened
+			i := g.instantiate(&ModSpec{Name: "i", ID: 2, Imports: []ImportSpec{impMem("e", wenc.Limits{Min: 2}), impTab("e", wenc.Limits{Min: 1}), impG("e", 0, gt(wenc.I32, true))}}).Inst
+			if i != nil {
+				g.push(Step{Kind: "gc", Tag: "gc"})
+				tagged(g, "failed-instantiation:start-trap:function-of-failed-instance-in-shared-table", func() {
+					g.call(i, "tcall0", 2, 5)
+					g.call(i, "tcall0", 3, 5)
+				})
+				g.call(i, "ld8", 20)
+			}
+			g.sweep()
+		}})
+	}
 	for _, how := range []string{"missing-name", "missing-module", "global-mutability", "func-signature", "kind"} {
 		how := how
 		out = append(out, directed{"fail-link-" + how + "-with-pending-segments", func(g *gen) {
